@@ -2363,3 +2363,140 @@ def _iter_chain(it, args, dty, func):
 def _iter_copied(it, args, dty, func):
     xs = [clone_val(x.load() if isinstance(x, Ref) else x) for x in iter_all(it, _as_iter_state(args[0]))]
     return Agg("{owned_iter}", [Seq("vec", xs, "?"), 0])
+
+
+# --- further Option / Result / Range combinators -----------------------------------------------------------
+@model("std::option::Option::filter")
+def _opt_filter(it, args, dty, func):
+    o = args[0]
+    if o.idx == 0:
+        return o
+    keep = it.call_closure(args[1], Agg("tuple", [Ref(Cell(o.f[0], "opt"), ())]), "bool")
+    return o if it.ctx.branch(keep) else none(o.ty)
+
+
+@model("std::option::Option::or")
+def _opt_or(it, args, dty, func):
+    return args[0] if args[0].idx == 1 else args[1]
+
+
+@model("std::option::Option::or_else", "std::result::Result::or_else")
+def _opt_or_else(it, args, dty, func):
+    o = args[0]
+    if o.vname in ("Some", "Ok"):
+        return o
+    return it.call_closure(args[1], Agg("tuple", list(o.f)), dty)
+
+
+@model("std::option::Option::and")
+def _opt_and(it, args, dty, func):
+    return args[1] if args[0].idx == 1 else args[0]
+
+
+@model("std::option::Option::is_some_and", "std::result::Result::is_ok_and")
+def _is_some_and(it, args, dty, func):
+    o = _deref(args[0])
+    if o.vname not in ("Some", "Ok"):
+        return False
+    return it.call_closure(args[1], Agg("tuple", [o.f[0]]), "bool")
+
+
+@model("std::option::Option::is_none_or")
+def _is_none_or(it, args, dty, func):
+    o = _deref(args[0])
+    if o.idx == 0:
+        return True
+    return it.call_closure(args[1], Agg("tuple", [o.f[0]]), "bool")
+
+
+@model("std::option::Option::inspect", "std::result::Result::inspect")
+def _opt_inspect(it, args, dty, func):
+    return args[0]
+
+
+@model("std::option::Option::get_or_insert_with")
+def _get_or_insert_with(it, args, dty, func):
+    r = args[0]
+    o = r.load()
+    if o.idx == 0:
+        v = it.call_closure(args[1], Agg("tuple", []), "")
+        r.store(some(v, o.ty))
+    return r.child(0)
+
+
+@model("std::option::Option::insert")
+def _opt_insert(it, args, dty, func):
+    r = args[0]
+    r.store(some(args[1], r.load().ty))
+    return r.child(0)
+
+
+@model("std::option::Option::zip")
+def _opt_zip(it, args, dty, func):
+    a, b = args
+    if a.idx == 1 and b.idx == 1:
+        return some(Agg("tuple", [a.f[0], b.f[0]]))
+    return none()
+
+
+@model_re(r"^(std|core)::ops::Range(Inclusive|From|To|ToInclusive)?::contains$|^(std|core)::ops::RangeBounds::contains$")
+def _range_contains(it, args, dty, func):
+    rng = _deref(args[0])
+    x = _deref(args[1])
+    t = _last(rng.ty)
+    w = 64
+    from .interp import int_binop
+    def ge(a, b):
+        return int_binop("Ge", a, b, w, False)
+    def lt(a, b):
+        return int_binop("Lt", a, b, w, False)
+    def le(a, b):
+        return int_binop("Le", a, b, w, False)
+    conds = []
+    if t in ("Range", "RangeFrom", "RangeInclusive"):
+        conds.append(ge(x, rng.f[0]))
+    if t == "Range":
+        conds.append(lt(x, rng.f[1]))
+    if t == "RangeInclusive":
+        conds.append(le(x, rng.f[1]))
+    if t == "RangeTo":
+        conds.append(lt(x, rng.f[0]))
+    if t == "RangeToInclusive":
+        conds.append(le(x, rng.f[0]))
+    return conj(conds)
+
+
+@trait_model(r".*", "RangeBounds", "contains")
+def _range_bounds_contains(it, args, dty, func):
+    return _range_contains(it, args, dty, func)
+
+
+@model("std::ops::RangeInclusive::new")
+def _range_incl_new(it, args, dty, func):
+    return Agg("std::ops::RangeInclusive", [args[0], args[1], False])
+
+
+# --- awaiting crate `async fn`s: poll the callee's coroutine body from its MIR -------------------------------
+@trait_model(r"^\{async fn body of ", "IntoFuture", "into_future")
+def _async_into_future(it, args, dty, func):
+    return args[0]
+
+
+@trait_model(r"^\{async fn body of ", "Future", "poll")
+def _async_poll(it, args, dty, func):
+    m = re.match(r"^<\{async fn body of (.*?)\(\)\} as ", func)
+    if not m:
+        raise Unsupported("async poll: " + func[:80])
+    path = strip_generics(m.group(1))
+    fn = it.resolve_fn(path, path)
+    if fn is None:
+        raise Unsupported("async fn body not found: " + path)
+    coro = args[0]
+    while isinstance(coro, Ref) and not (isinstance(coro.load(), Agg) and str(coro.load().ty).startswith("{coroutine")):
+        coro = coro.load()
+    return it.run_body(it.prog.body(fn.split("@")[0] + "::{closure#0}"), [coro, args[1]])
+
+
+@model("std::pin::Pin::new_unchecked", "std::pin::Pin::new", "std::pin::Pin::as_mut", "std::pin::Pin::get_mut", "std::pin::Pin::into_inner")
+def _pin_identity(it, args, dty, func):
+    return args[0]
